@@ -346,6 +346,46 @@ def check_mappings(ctx, rng, reqs, metas, n_cases):
                     reqs.append({"op": "mappingMap", "mapping": {"maps": maps_j, "mirror": mirror}, "pos": pos, "assoc": assoc})
                     r = pal.map_result(pos, assoc)
                     metas.append(("mappingMap", chain, None, [pal.map(pos, assoc), r.pos, r.del_info]))
+        # rebasing-style construction: undo A_k..A_1, apply other maps, redo A_1..A_k with mirrors; every slice of it
+        chainA = [random_map(rng, 2, strict=True) for _ in range(rng.randint(1, 2))]
+        between = [random_map(rng, 2) for _ in range(rng.randint(0, 2))]
+
+        def rebase_shape():
+            mp = Mapping()
+            ka = len(chainA)
+            for i in range(ka - 1, -1, -1):
+                mp.append_map(StepMap(list(chainA[i])).invert())
+            for r in between:
+                mp.append_map(StepMap(list(r)))
+            for i in range(ka):
+                mp.append_map(StepMap(list(chainA[i])), ka - 1 - i)
+            return mp
+        for label, st_b, big in (("palindrome", stp, pal if stp == "ok" else None),) + ((("rebase",) + outcome(rebase_shape)),):
+            if st_b != "ok":
+                continue
+            n = len(big.maps)
+            mj = [[list(x.ranges), x.inverted] for x in big.maps]
+            mir = list(big.mirror or [])
+            pairs = [(mir[i], mir[i + 1]) for i in range(0, len(mir), 2)]
+            hi2 = span(list(big.maps[0].ranges), big.maps[0].inverted) + 2
+            for _s in range(3):
+                a, b = sorted((rng.randint(0, n), rng.randint(0, n)))
+                no_pair_inside = not any(a <= min(x, y) and max(x, y) < b for (x, y) in pairs)
+                for assoc in (-1, 1):
+                    for pos in range(hi2):
+                        st, got = outcome(lambda: big.slice(a, b).map(pos, assoc))
+                        ctx.count("sliced_mirror_calls")
+                        if no_pair_inside:
+                            # no complete mirror pair inside the slice: the slice is the plain composition of its maps
+                            exp = compose([(list(x.ranges), x.inverted) for x in big.maps[a:b]], pos, assoc)
+                            if (st, got) != ("ok", exp):
+                                ctx.violation("slice-composition", "a slice of a mapping with mirrors that holds no complete mirror pair is not the composition of its maps",
+                                              {"shape": label, "maps": mj, "mirror": mir, "slice": [a, b], "pos": pos, "assoc": assoc,
+                                               "got": got if st == "ok" else str(got), "expected": exp})
+                        if st == "ok":
+                            r = big.slice(a, b).map_result(pos, assoc)
+                            reqs.append({"op": "mappingMap", "mapping": {"maps": mj, "mirror": mir, "from": a, "to": b}, "pos": pos, "assoc": assoc})
+                            metas.append(("mappingMap", mj, [a, b], [got, r.pos, r.del_info]))
         # model: builder ops
         ops = [{"k": "appendMap", "m": [list(r), inv]} for r, inv in zip(maps, invs)]
         ops.append({"k": "appendMapping", "mapping": {"maps": [[list(r), False] for r in other_maps]}})
